@@ -521,11 +521,13 @@ class HealCtx(FsmCtx):
             return
         now = w.now()
         if self.t_estab is None:
-            if w.state() == "ESTABLISHED":
+            up = [c.cid for c in w.live_conns() if c.readable()]
+            # (a session still up from the adversarial phase does not count: the cooperative peer
+            # resets those connections first)
+            if w.state() == "ESTABLISHED" and up and up[-1] >= self.first_coop_cid:
                 self.t_estab = now
                 self.nontrivial = True
-                up = [c.cid for c in w.live_conns() if c.readable()]
-                self.estab_cid = up[-1] if up else None
+                self.estab_cid = up[-1]
                 self.stats["healed"] += 1
                 if now > self.liveness_deadline() + EPS:
                     raise Violation("C02", "liveness", "established-late/switch-in-%s" % self.state_at_switch,
@@ -552,6 +554,8 @@ class HealCtx(FsmCtx):
         if not self.coop or w.exited:
             return
         if self.t_estab is None:
+            if w.now() <= self.liveness_deadline() + EPS:
+                return      # truncated run (replay of a shrunk op list): the bound has not passed yet
             raise Violation("C02", "liveness", "not-established/switch-in-%s/now-%s" % (self.state_at_switch, w.state()),
                             "peer cooperative since t=%.3f (agent was %s): run ended at t=%.3f in %s without Established"
                             % (self.t_switch, self.state_at_switch, w.now(), w.state()))
